@@ -29,11 +29,30 @@ def _watchdog(prop, secs):
     signal.alarm(secs)
 
 
+def anchored_files(prop):
+    try:
+        for line in open(os.path.join(VERIF_ROOT, "properties.jsonl")):
+            p = json.loads(line)
+            if p["id"] == prop:
+                return [f for f in p["anchors"]["files"] if f.endswith(".py")]
+    except Exception:
+        pass
+    return []
+
+
 def run_in_process(mod, ctx: Ctx):
     st = getattr(mod, "selftest", None)
     if st is not None:
         st(ctx)
+    reach = None
+    files = anchored_files(ctx.prop)
+    if files and os.environ.get("SPV_NO_REACH") != "1":
+        from spverif.san.reach import Reach
+        reach = Reach(os.path.abspath(repo_mod.REPO).rstrip("/") + "/")
+        reach.install()
     mod.run(ctx)
+    if reach is not None:
+        ctx.extra["reach_calls_per_anchored_function_capped"] = reach.entered(set(files))
 
 
 def main(argv=None) -> int:
@@ -114,6 +133,14 @@ def main(argv=None) -> int:
     if prop in SUITE_PROPS and os.environ.get("SPV_NO_SUITE") != "1":
         from spverif.core.suite import run_suite_under_contracts
         run_suite_under_contracts(ctx)
+    files = anchored_files(prop)
+    if files and "reach_calls_per_anchored_function_capped" in ctx.extra:
+        from spverif.san.reach import defined_functions
+        ent = ctx.extra["reach_calls_per_anchored_function_capped"]
+        allf = defined_functions(os.path.abspath(repo_mod.REPO), files)
+        never = sorted(allf - set(ent))
+        ctx.extra["reach_summary"] = {"anchored_files": files, "functions_defined": len(allf), "functions_entered": len(set(ent) & allf),
+                                      "functions_never_entered": never}
     concl = getattr(mod, "conclude", None)
     if concl is not None:
         concl(ctx)
